@@ -219,3 +219,39 @@ Proof.
   destruct (pass2_filter c m _ (mkD p1 (d_dc st) (d_wc st)) [] [] d1' objs eq_refl H) as (news & d2' & G1 & G2).
   rewrite G2. simpl in *. subst objs. reflexivity.
 Qed.
+
+(* ---------- the working way / relation of scanPrimitiveGroup is always a fresh one ---------- *)
+(* At every iteration of the group loop the way / relation handed to scanWays / scanRelations is the
+   zero value (no tags, NO NODES, no members): accepted -> a new object, rejected -> the reset, which
+   truncates every slice to length 0.  Hence in scanWays `len(way.Nodes) == 0` holds at entry, the
+   first column present MAKES the node array, and every index write of that call goes into an
+   array made in that call (wave 5; with GenOk.decoder_slice_discipline_matches_source this is what
+   justifies treating way / relation slices by value). *)
+Lemma group_step_fresh c s f s' :
+  g_way s = way0 -> g_rel s = rel0 -> group_step c s f = Ok s' -> g_way s' = way0 /\ g_rel s' = rel0.
+Proof.
+  intros Hw Hr. unfold group_step.
+  destruct (fst f =? 1); [discriminate|].
+  destruct ((fst f =? 2) && negb (skip_nodes c)).
+  { destruct (as_msg (snd f)) as [m| |]; simpl; try discriminate.
+    destruct (scan_dense c (d_p (g_d s)) (d_dc (g_d s)) m (g_q s)) as [[dc' q']| |]; simpl; try discriminate.
+    intros H. injection H as <-. simpl. auto. }
+  destruct ((fst f =? 3) && negb (skip_ways c)).
+  { destruct (as_msg (snd f)) as [m| |]; simpl; try discriminate.
+    destruct (scan_way (d_p (g_d s)) (d_wc (g_d s)) m (g_way s)) as [[w wc']| |]; simpl; try discriminate.
+    destruct (f_way c w); intros H; injection H as <-; simpl; auto. }
+  destruct ((fst f =? 4) && negb (skip_rels c)).
+  { destruct (as_msg (snd f)) as [m| |]; simpl; try discriminate.
+    destruct (scan_relation (d_p (g_d s)) (d_wc (g_d s)) m (g_rel s)) as [[r wc']| |]; simpl; try discriminate.
+    destruct (f_rel c r); intros H; injection H as <-; simpl; auto. }
+  intros H. injection H as <-. auto.
+Qed.
+
+Theorem group_loop_fresh c m : forall s s',
+  g_way s = way0 -> g_rel s = rel0 -> group_loop c m s = Ok s' -> g_way s' = way0 /\ g_rel s' = rel0.
+Proof.
+  induction m as [|f r IH]; intros s s' Hw Hr H; simpl in H.
+  - injection H as <-. auto.
+  - destruct (group_step c s f) as [s1| |] eqn:E; simpl in H; try discriminate.
+    destruct (group_step_fresh c s f s1 Hw Hr E) as [A B]. exact (IH s1 s' A B H).
+Qed.
